@@ -367,13 +367,11 @@ def contigText (f : Fields) : Bytes :=
 
 /-- the header part: LOCUS … extra fields -/
 def headerText (f : Fields) (length : Int) : Out Bytes := do
-  let region ←
+  -- 0f056fc: the REGION suffix is written for a proper segment only (`gts.Range` would panic)
+  let region : Bytes :=
     match f.region with
-    | none => pure []
-    | some (h, t) =>
-      -- `gts.Range(h, t)` panics unless h < t
-      if t ≤ h then throw .panic
-      else pure (bs " REGION: " ++ itoaB (h + 1) ++ bs ".." ++ itoaB t)
+    | none => []
+    | some (h, t) => if t ≤ h then [] else bs " REGION: " ++ itoaB (h + 1) ++ bs ".." ++ itoaB t
   let refs ← referencesText f.references
   pure (
     locusLine f length ++ [10] ++
